@@ -27,7 +27,15 @@ def gen(rng, tier):
         voc = K.vocab_of(docs)
         qs = [["tf", t] for t in (voc if len(voc) <= 12 else rng.sample(voc, 12))]
         qs += [["tf", vocab + 1000 + rng.randint(0, 5)]]          # absent term
-        cases.append({"docs": docs, "tokz": rng.choice(K.TOKZ), "opts": K.gen_opts(rng, len(docs)), "queries": qs})
+        case = {"docs": docs, "tokz": rng.choice(K.TOKZ), "opts": K.gen_opts(rng, len(docs)), "queries": qs}
+        if rng.random() < 0.35:
+            # term 0 in every row + a scoring history before the queries (cached tf vectors must not be handed out)
+            case["docs"] = [[0] + (d or []) for d in docs]
+            case["queries"] = [["tf", 0]] + qs
+            case["prescore"] = True
+            if rng.random() < 0.7:
+                case["opts"] = dict(case["opts"], cache_gt_than=rng.choice([0, 1, 5]))
+        cases.append(case)
     return cases
 
 
@@ -65,6 +73,8 @@ def tally(dist, c, r):
     n = len(c["docs"])
     dist[f"rows%10={n % 10}"] = dist.get(f"rows%10={n % 10}", 0) + 1
     dist["tokz:" + c.get("tokz", "ws")] = dist.get("tokz:" + c.get("tokz", "ws"), 0) + 1
+    if c.get("prescore"):
+        dist["score-before-tf"] = dist.get("score-before-tf", 0) + 1
     o = c.get("opts", {})
     if o.get("batch_size", 10 ** 6) < n:
         dist["multi-batch"] = dist.get("multi-batch", 0) + 1
